@@ -131,6 +131,14 @@ func mkReader(kind string, data []byte, r *vx.Rng) (io.Reader, string, func() in
 		return cr, "[Give 1099511627776; Fault]", func() int { return cr.n }, nil
 	}
 	var evs []evt
+	if kind == "chunks64k" { // the one-byte reader's big brother: every Read hands out at most 65521 bytes
+		n := len(d)/65521 + 8
+		for i := 0; i < n; i++ {
+			evs = append(evs, evt{kind: 'g', n: 65521})
+		}
+		c := &chunkReader{data: d, evs: evs}
+		return c, fmt.Sprintf("(repeat (Give 65521) %s)", natT(n)), func() int { return c.pos }, c
+	}
 	if kind == "bigscript" {
 		c := &chunkReader{data: d, evs: append([]evt(nil), bigScript...)}
 		return c, evsT(bigScript), func() int { return c.pos }, c
